@@ -3,10 +3,9 @@ import CoxeterVerif.Model.ConvexPolyhedron
 import CoxeterVerif.Spec.Solid
 
 namespace OpsC01
-variable {α : Type} [Scalar α] [Codec α]
 
 /-- ops of C01. `none` = unknown op. -/
-def run (op : String) (c : Ctx) : Option (Rd String) :=
+def run (α : Type) [Scalar α] [Codec α] (op : String) (c : Ctx) : Option (Rd String) :=
   match op with
   | "cp.measures" => some do
       -- in: tris ; out: signedVolume volume centroid(3) area inertia(9)
